@@ -20,6 +20,8 @@ def make_spec(hist):
             local.append({"name": c + cfg[-1], "class": "compute", "attributes": {"type": "mul" if c[0] == "M" else "add"}})
         local.append({"name": "Isect" + cfg[-1], "class": "Intersector", "attributes": {"type": "two-finger"}})
         local.append({"name": "Mem" + cfg[-1], "class": "DRAM", "attributes": {"bandwidth": 128}})
+        # a merger is NOT a functional component: sharing it between Einsums must not influence the blocks
+        local.append({"name": "Mrg" + cfg[-1], "class": "Merger", "attributes": {"inputs": 16, "comparator_radix": 16, "outputs": 1, "order": "fifo", "reduce": False}})
         arch[cfg] = [{"name": "System", "attributes": {"clock_frequency": 1000}, "local": local, "subtree": []}]
     for i, h in enumerate(hist):
         name = "T%d" % i
@@ -33,6 +35,9 @@ def make_spec(hist):
                 b.append({"component": c, "bindings": [{"rank": "K"}] if nonempty else []})
             elif c.startswith("Mem"):
                 b.append({"component": c, "bindings": [{"tensor": "A", "rank": "K", "type": "payload", "format": "default"}] if nonempty else []})
+            elif c.startswith("Mrg"):
+                swz = h["loop"].index("M") < h["loop"].index("K")        # A[K, M] is swizzled only when M is looped before K
+                b.append({"component": c, "bindings": [{"tensor": "A", "init-ranks": ["K", "M"], "final-ranks": ["M", "K"]}] if nonempty and swz else []})
             else:
                 b.append({"component": c, "bindings": [{"op": "mul" if c[0] == "M" else "add"}] if nonempty else []})
         bind[name] = b
@@ -52,7 +57,7 @@ def with_format(d):
 def obs_of(hist):
     out = []
     for i, h in enumerate(hist):
-        comps = [c for c, nonempty in h["comps"] if nonempty and not c.startswith("Mem")]
+        comps = [c for c, nonempty in h["comps"] if nonempty and not c.startswith(("Mem", "Mrg"))]
         out.append({"einsum": "T%d" % i, "loop": list(h["loop"]), "space": list(h["space"]), "config": h["config"], "comps": comps})
     return out
 
@@ -95,9 +100,25 @@ def gen_hist(rng, n):
             cfg = hist[-1]["config"]
         else:
             cfg = rng.choice(["CfgA", "CfgA", "CfgB"])
-        pool = [c + cfg[-1] for c in ("Mul0", "Mul1", "Add0", "Isect", "Mem")]
+        pool = [c + cfg[-1] for c in ("Mul0", "Mul1", "Add0", "Isect", "Mem", "Mrg")]
         comps = [(c, rng.random() < 0.85) for c in rng.sample(pool, rng.choice([0, 1, 1, 1, 2, 2, 3]))]
         hist.append(dict(loop=loop, space=space, config=cfg, comps=comps))
+    return hist
+
+
+def gen_hist_merger(rng, n):
+    """histories in which most Einsums sort on the configuration's (non-functional) merger, use distinct or shared functional units
+    with non-empty bindings, and keep loop order / split / configuration: the blocks are decided by the functional units alone"""
+    loop = rng.choice([["M", "K", "N"], ["M", "N", "K"], ["N", "M", "K"]])
+    space = rng.choice([[], [loop[-1]], [loop[1]]])
+    cfg = rng.choice(["CfgA", "CfgB"])
+    hist = []
+    for i in range(n):
+        units = rng.sample(["Mul0", "Mul1", "Add0", "Isect"], rng.choice([1, 1, 2]))
+        comps = [(u + cfg[-1], True) for u in units]
+        if rng.random() < 0.75:
+            comps.insert(rng.randint(0, len(comps)), ("Mrg" + cfg[-1], True))
+        hist.append(dict(loop=list(loop), space=list(space), config=cfg, comps=comps))
     return hist
 
 
